@@ -596,6 +596,13 @@ def contains(interp, st, container, item, node=None):
         return z3.Exists([k], z3.And(k >= 0, k < container.length, to_z3(eq)))
     if isinstance(container, Rows):
         return contains(interp, st, container.src, item, node)
+    if isinstance(container, Grid) and container.rank == 2 and isinstance(container.dims[1], int):
+        # a coordinate tuple `in` an (n, w) array of rows (spec vocabulary): some row equals it
+        key = as_key(item, node)
+        if len(key) != container.dims[1]:
+            return False
+        k = z3.Int(V.fresh_name("k"))
+        return z3.Exists([k], z3.And(k >= 0, k < to_z3(container.dims[0]), *[container.select([k, c]) == to_z3(key[c]) for c in range(len(key))]))
     if isinstance(container, str) and isinstance(item, str):
         return item in container
     if hasattr(interp.lib, "tok_contains"):
